@@ -35,6 +35,47 @@ def build(ll, workdir, sanitize=True):
     return exe
 
 
+DEF_RE = re.compile(r'^(define .*?\))( .*)?$')
+
+
+def build_tsan(ll, workdir):
+    """ThreadSanitizer build of the schedule-instrumented IR (C++11 happens-before race detection on the forced schedule).
+    The turnstile runtime is compiled WITHOUT instrumentation so that its own synchronisation does not create happens-before edges."""
+    ins = os.path.join(workdir, os.path.basename(ll)[:-3] + '.tsan.ll')
+    tmp = ins + '.tmp'
+    instrument(ll, tmp)
+    out = []
+    for line in open(tmp):
+        if line.startswith('define '):
+            # function attributes follow the parameter list: find its closing parenthesis (names may be quoted, types nest parentheses)
+            m = re.search(r'@(?:"(?:[^"\\]|\\.)*"|[-\w.$]+)\(', line)
+            if m:
+                depth = 0; pos = None; inq = False
+                for i in range(m.end() - 1, len(line)):
+                    ch = line[i]
+                    if ch == '"': inq = not inq
+                    if inq: continue
+                    if ch == '(': depth += 1
+                    elif ch == ')':
+                        depth -= 1
+                        if depth == 0: pos = i + 1; break
+                if pos is not None:
+                    for kw in (' local_unnamed_addr', ' unnamed_addr'):
+                        if line.startswith(kw, pos): pos += len(kw); break
+                    line = line[:pos] + ' sanitize_thread' + line[pos:]
+        out.append(line)
+    open(ins, 'w').writelines(out)
+    os.unlink(tmp)
+    obj = ins[:-3] + '.o'; rto = os.path.join(workdir, 'e2_native_plain.o'); exe = ins[:-3] + '.exe'
+    for cmd in (['clang-14', '-O0', '-g0', '-fsanitize=thread', '-Wno-override-module', '-x', 'ir', '-c', ins, '-o', obj],
+                ['clang-14', '-O1', '-c', os.path.join(VERIF, 'rt', 'e2_native.c'), '-o', rto],
+                ['clang-14', '-fsanitize=thread', obj, rto, '-lstdc++', '-lm', '-pthread', '-o', exe]):
+        p = subprocess.run(cmd, stdout=subprocess.PIPE, stderr=subprocess.PIPE)
+        if p.returncode != 0:
+            raise Exception('TSan build failed: ' + ' '.join(cmd[:4]) + ': ' + p.stderr.decode()[-1500:])
+    return exe
+
+
 def run(exe, schedule, nondet, workdir, timeout=60, valgrind=False):
     sf = os.path.join(workdir, 'schedule.txt')
     with open(sf, 'w') as f:
@@ -42,28 +83,36 @@ def run(exe, schedule, nondet, workdir, timeout=60, valgrind=False):
         for (tid, o) in schedule: f.write('s %d %d\n' % (tid, o))
     env = dict(os.environ); env['VF_SCHEDULE'] = sf
     env['ASAN_OPTIONS'] = 'detect_leaks=0:exitcode=43:detect_stack_use_after_return=1'
+    env['TSAN_OPTIONS'] = 'exitcode=66:report_signal_unsafe=0'
     try:
         cmd = ['valgrind', '-q', '--error-exitcode=43', '--fair-sched=yes', exe] if valgrind else [exe]
-        p = subprocess.run(cmd, stdout=subprocess.PIPE, stderr=subprocess.PIPE, env=env, timeout=timeout)
+        def unlimit():
+            import resource
+            try: resource.setrlimit(resource.RLIMIT_AS, (resource.RLIM_INFINITY, resource.RLIM_INFINITY))
+            except Exception: pass
+        p = subprocess.run(cmd, stdout=subprocess.PIPE, stderr=subprocess.PIPE, env=env, timeout=timeout, preexec_fn=unlimit)
         return p.returncode, p.stderr.decode('utf8', 'replace')
     except subprocess.TimeoutExpired:
         return -9, 'TIMEOUT'
 
 
-def classify(rc, err):
+def classify(rc, err, tsan=False):
     if rc == 42:
         m = re.search(r'VF_ASSERT_FAILED: (.*)', err)
         return True, 'native threads under the forced schedule fail: ' + (m.group(1) if m else '?')
     if 'Invalid read' in err or 'Invalid write' in err or 'Invalid free' in err:
         m = re.search(r'(Invalid (?:read|write|free)[^\n]*)', err)
         return True, 'valgrind under the forced schedule: ' + (m.group(1) if m else '?')
+    if 'ThreadSanitizer: data race' in err:
+        m = re.search(r'WARNING: ThreadSanitizer: data race[^\n]*\n\s*([^\n]*)', err)
+        return True, 'ThreadSanitizer under the forced schedule: data race (%s)' % (m.group(1).strip()[:160] if m else '?')
     if rc == 43 or 'AddressSanitizer' in err:
         m = re.search(r'ERROR: AddressSanitizer: ([^\n]*)', err)
         return True, 'AddressSanitizer under the forced schedule: ' + (m.group(1)[:160] if m else '?')
     if rc in (-6, 134):
         m = re.search(r'Assertion `([^\n]*)', err)
         return True, 'native build aborts under the forced schedule: ' + (m.group(0)[:200] if m else err[-200:])
-    if rc in (-11, 139): return True, 'native build crashes (SIGSEGV) under the forced schedule'
+    if rc in (-11, 139) and not tsan: return True, 'native build crashes (SIGSEGV) under the forced schedule'
     if rc == 45: return True, 'native threads hang under the forced schedule: ' + err.strip()[-160:]
     if rc == -9: return True, 'native run hangs (killed)'
     if rc == 3: return False, 'schedule could not be followed: ' + err.strip()[-200:]
